@@ -913,21 +913,21 @@ u_fe! { fn c06_u_recv_reply_with_files() {
 } }
 
 // ==== generated by tools/gen_e_fe.py ====
-// @harness props=C01,C02,C03,C06,C10 tier=quick reach=off timeout=500 bound="Frontend::get_features: all argument values, five 64-bit negotiation/limit words, NEED_REPLY on/off, peer reply header of one concrete class (conformant unless named in the harness), 40 symbolic body bytes, 0..=2 descriptors; one call" stubs="vmm-sys-util raw_recvmsg/raw_sendmsg (ghost stream socket), libc::close + OwnedFd::drop (ghost descriptor table), handle_alloc_error (assume false)"
+// @harness props=C01,C02,C03,C06,C07,C10 tier=quick reach=off timeout=500 bound="Frontend::get_features: all argument values, five 64-bit negotiation/limit words, NEED_REPLY on/off, peer reply header of one concrete class (conformant unless named in the harness), 40 symbolic body bytes, 0..=2 descriptors; one call" stubs="vmm-sys-util raw_recvmsg/raw_sendmsg (ghost stream socket), libc::close + OwnedFd::drop (ghost descriptor table), handle_alloc_error (assume false)"
 e_fe!(e_fe_get_features, 1, 0);
-// @harness props=C01,C02,C03,C06,C10 tier=quick reach=off timeout=500 bound="Frontend::get_features_foreign_code: all argument values, five 64-bit negotiation/limit words, NEED_REPLY on/off, peer reply header of one concrete class (conformant unless named in the harness), 40 symbolic body bytes, 0..=2 descriptors; one call" stubs="vmm-sys-util raw_recvmsg/raw_sendmsg (ghost stream socket), libc::close + OwnedFd::drop (ghost descriptor table), handle_alloc_error (assume false)"
+// @harness props=C01,C02,C03,C06,C07,C10 tier=quick reach=off timeout=500 bound="Frontend::get_features_foreign_code: all argument values, five 64-bit negotiation/limit words, NEED_REPLY on/off, peer reply header of one concrete class (conformant unless named in the harness), 40 symbolic body bytes, 0..=2 descriptors; one call" stubs="vmm-sys-util raw_recvmsg/raw_sendmsg (ghost stream socket), libc::close + OwnedFd::drop (ghost descriptor table), handle_alloc_error (assume false)"
 e_fe!(e_fe_get_features_foreign_code, 1, 256);
-// @harness props=C01,C02,C03,C06,C10 tier=quick reach=off timeout=500 bound="Frontend::get_features_noreplyflag: all argument values, five 64-bit negotiation/limit words, NEED_REPLY on/off, peer reply header of one concrete class (conformant unless named in the harness), 40 symbolic body bytes, 0..=2 descriptors; one call" stubs="vmm-sys-util raw_recvmsg/raw_sendmsg (ghost stream socket), libc::close + OwnedFd::drop (ghost descriptor table), handle_alloc_error (assume false)"
+// @harness props=C01,C02,C03,C06,C07,C10 tier=quick reach=off timeout=500 bound="Frontend::get_features_noreplyflag: all argument values, five 64-bit negotiation/limit words, NEED_REPLY on/off, peer reply header of one concrete class (conformant unless named in the harness), 40 symbolic body bytes, 0..=2 descriptors; one call" stubs="vmm-sys-util raw_recvmsg/raw_sendmsg (ghost stream socket), libc::close + OwnedFd::drop (ghost descriptor table), handle_alloc_error (assume false)"
 e_fe!(e_fe_get_features_noreplyflag, 1, 512);
-// @harness props=C01,C02,C03,C06,C10 tier=thorough reach=off timeout=500 bound="Frontend::get_features_version2: all argument values, five 64-bit negotiation/limit words, NEED_REPLY on/off, peer reply header of one concrete class (conformant unless named in the harness), 40 symbolic body bytes, 0..=2 descriptors; one call" stubs="vmm-sys-util raw_recvmsg/raw_sendmsg (ghost stream socket), libc::close + OwnedFd::drop (ghost descriptor table), handle_alloc_error (assume false)"
+// @harness props=C01,C02,C03,C06,C07,C10 tier=thorough reach=off timeout=500 bound="Frontend::get_features_version2: all argument values, five 64-bit negotiation/limit words, NEED_REPLY on/off, peer reply header of one concrete class (conformant unless named in the harness), 40 symbolic body bytes, 0..=2 descriptors; one call" stubs="vmm-sys-util raw_recvmsg/raw_sendmsg (ghost stream socket), libc::close + OwnedFd::drop (ghost descriptor table), handle_alloc_error (assume false)"
 e_fe!(e_fe_get_features_version2, 1, 768);
-// @harness props=C01,C02,C03,C06,C10 tier=thorough reach=off timeout=500 bound="Frontend::get_features_reservedbit: all argument values, five 64-bit negotiation/limit words, NEED_REPLY on/off, peer reply header of one concrete class (conformant unless named in the harness), 40 symbolic body bytes, 0..=2 descriptors; one call" stubs="vmm-sys-util raw_recvmsg/raw_sendmsg (ghost stream socket), libc::close + OwnedFd::drop (ghost descriptor table), handle_alloc_error (assume false)"
+// @harness props=C01,C02,C03,C06,C07,C10 tier=thorough reach=off timeout=500 bound="Frontend::get_features_reservedbit: all argument values, five 64-bit negotiation/limit words, NEED_REPLY on/off, peer reply header of one concrete class (conformant unless named in the harness), 40 symbolic body bytes, 0..=2 descriptors; one call" stubs="vmm-sys-util raw_recvmsg/raw_sendmsg (ghost stream socket), libc::close + OwnedFd::drop (ghost descriptor table), handle_alloc_error (assume false)"
 e_fe!(e_fe_get_features_reservedbit, 1, 1024);
-// @harness props=C01,C02,C03,C06,C10 tier=thorough reach=off timeout=500 bound="Frontend::get_features_size_plus1: all argument values, five 64-bit negotiation/limit words, NEED_REPLY on/off, peer reply header of one concrete class (conformant unless named in the harness), 40 symbolic body bytes, 0..=2 descriptors; one call" stubs="vmm-sys-util raw_recvmsg/raw_sendmsg (ghost stream socket), libc::close + OwnedFd::drop (ghost descriptor table), handle_alloc_error (assume false)"
+// @harness props=C01,C02,C03,C06,C07,C10 tier=thorough reach=off timeout=500 bound="Frontend::get_features_size_plus1: all argument values, five 64-bit negotiation/limit words, NEED_REPLY on/off, peer reply header of one concrete class (conformant unless named in the harness), 40 symbolic body bytes, 0..=2 descriptors; one call" stubs="vmm-sys-util raw_recvmsg/raw_sendmsg (ghost stream socket), libc::close + OwnedFd::drop (ghost descriptor table), handle_alloc_error (assume false)"
 e_fe!(e_fe_get_features_size_plus1, 1, 1280);
-// @harness props=C01,C02,C03,C06,C08,C09,C10 tier=quick reach=off timeout=500 bound="Frontend::get_features_body_cut_by_eof: all argument values, five 64-bit negotiation/limit words, NEED_REPLY on/off, peer reply header of one concrete class (conformant unless named in the harness), 40 symbolic body bytes, 0..=2 descriptors; one call" stubs="vmm-sys-util raw_recvmsg/raw_sendmsg (ghost stream socket), libc::close + OwnedFd::drop (ghost descriptor table), handle_alloc_error (assume false)"
+// @harness props=C01,C02,C03,C06,C07,C08,C09,C10 tier=quick reach=off timeout=500 bound="Frontend::get_features_body_cut_by_eof: all argument values, five 64-bit negotiation/limit words, NEED_REPLY on/off, peer reply header of one concrete class (conformant unless named in the harness), 40 symbolic body bytes, 0..=2 descriptors; one call" stubs="vmm-sys-util raw_recvmsg/raw_sendmsg (ghost stream socket), libc::close + OwnedFd::drop (ghost descriptor table), handle_alloc_error (assume false)"
 e_fe!(e_fe_get_features_body_cut_by_eof, 1, 1536);
-// @harness props=C01,C02,C03,C06,C10 tier=quick reach=off timeout=500 bound="Frontend::set_features: all argument values, five 64-bit negotiation/limit words, NEED_REPLY on/off, peer reply header of one concrete class (conformant unless named in the harness), 40 symbolic body bytes, 0..=2 descriptors; one call" stubs="vmm-sys-util raw_recvmsg/raw_sendmsg (ghost stream socket), libc::close + OwnedFd::drop (ghost descriptor table), handle_alloc_error (assume false)"
+// @harness props=C01,C02,C03,C06,C07,C10 tier=quick reach=off timeout=500 bound="Frontend::set_features: all argument values, five 64-bit negotiation/limit words, NEED_REPLY on/off, peer reply header of one concrete class (conformant unless named in the harness), 40 symbolic body bytes, 0..=2 descriptors; one call" stubs="vmm-sys-util raw_recvmsg/raw_sendmsg (ghost stream socket), libc::close + OwnedFd::drop (ghost descriptor table), handle_alloc_error (assume false)"
 e_fe!(e_fe_set_features, 2, 0);
 // @harness props=C01,C02,C03,C06,C10 tier=thorough reach=off timeout=500 bound="Frontend::set_owner: all argument values, five 64-bit negotiation/limit words, NEED_REPLY on/off, peer reply header of one concrete class (conformant unless named in the harness), 40 symbolic body bytes, 0..=2 descriptors; one call" stubs="vmm-sys-util raw_recvmsg/raw_sendmsg (ghost stream socket), libc::close + OwnedFd::drop (ghost descriptor table), handle_alloc_error (assume false)"
 e_fe!(e_fe_set_owner, 3, 0);
